@@ -180,6 +180,9 @@ type c10Cfg struct {
 	backend string // "mem" | "mdb"
 	leader  bool
 	maxLog  int
+	// noBarrier: only ordinary records are appended (quick leader system: the SyncOnce flag does
+	// not take part in any retention decision; the other systems append both kinds)
+	noBarrier bool
 	// fullCube: MaxSeq and MinSeq range over every value 0..LEO+1 (memory backend, thorough)
 	fullCube bool
 	// clean canonical states whose read matrix was already evaluated
@@ -300,7 +303,10 @@ func (in *c10Inst) Events() []string {
 	st := in.st
 	var evs []string
 	if in.appended < in.cfg.maxLog {
-		evs = append(evs, "app:n", "app:b")
+		evs = append(evs, "app:n")
+		if !in.cfg.noBarrier {
+			evs = append(evs, "app:b")
+		}
 	}
 	if st.HW < st.LEO {
 		evs = append(evs, "hw:+1")
@@ -749,7 +755,7 @@ func TestVerifC10Reactor(t *testing.T) {
 		depth int
 	}
 	systems := []sys{
-		{&c10Cfg{r: r, name: "mem-leader", backend: "mem", leader: true, maxLog: ev.Pick(r, 3, 5), fullCube: r.Thorough()}, ev.Pick(r, 6, 7)},
+		{&c10Cfg{r: r, name: "mem-leader", backend: "mem", leader: true, maxLog: ev.Pick(r, 3, 5), fullCube: r.Thorough(), noBarrier: !r.Thorough()}, ev.Pick(r, 6, 7)},
 		{&c10Cfg{r: r, name: "mem-follower", backend: "mem", leader: false, maxLog: ev.Pick(r, 3, 5), fullCube: r.Thorough()}, ev.Pick(r, 5, 7)},
 		{&c10Cfg{r: r, name: "mdb-leader", backend: "mdb", leader: true, maxLog: ev.Pick(r, 3, 4)}, ev.Pick(r, 5, 7)},
 		{&c10Cfg{r: r, name: "mdb-follower", backend: "mdb", leader: false, maxLog: ev.Pick(r, 3, 4)}, ev.Pick(r, 5, 6)},
@@ -758,7 +764,7 @@ func TestVerifC10Reactor(t *testing.T) {
 		cfg := s.cfg
 		mc.Run(r, mc.System{
 			Name: cfg.name, New: func() mc.Instance { return c10New(cfg) }, MaxDepth: s.depth, MaxDeviations: 1,
-			Bounds: map[string]any{"backend": cfg.backend, "leader": cfg.leader, "max_appends": cfg.maxLog,
+			Bounds: map[string]any{"backend": cfg.backend, "leader": cfg.leader, "max_appends": cfg.maxLog, "barrier_records": !cfg.noBarrier,
 				"events":      "app:{n,b} hw:{+1,leo} ck ack:{+1,leo} ret:x (x in 1..LEO+1, regressions included) ret1:x (MaxTrimMessages 1; 2 <= x <= min(HW, checkpoint))",
 				"read_matrix": "direction x FromSeq 0..LEO+1 x MaxSeq {0,1,HW,checkpoint,LEO,LEO+1} x MinSeq {0,1,L+1,P+1,R+1,LEO+1} x Limit {0,1,2}; memory backend in thorough: MaxSeq and MinSeq 0..LEO+1 each", "full_cube": cfg.fullCube},
 			Note: "states merged on (runtime offsets/retention/progress, store Load + RetentionState + surviving rows)",
